@@ -21,9 +21,53 @@ type Letter struct {
 	Groups []Group `json:"groups,omitempty"`
 	Ramp   *Ramp   `json:"ramp,omitempty"`
 	Big    *Big    `json:"big,omitempty"`
+	Mix    *Mix    `json:"mix,omitempty"`
 	// Op is a producer API call that is not an encode: "resetstats" (GetAndResetStats), "showstats"
 	Op string `json:"op,omitempty"`
 }
+// Mix is a generated batch in which one attribute key carries a value of a
+// different type (and the zero and a non-zero value of each type) under each of
+// NumMixValues consecutive parents; Rot rotates which parent gets which value.
+type Mix struct {
+	Level string `json:"level"` // item | resource | scope | sub (events+links / exemplars)
+	Rot   int    `json:"rot"`
+}
+
+const NumMixValues = 14
+
+func putMixValue(m pcommon.Map, j int) {
+	switch j % NumMixValues {
+	case 0:
+		m.PutBool("k", false)
+	case 1:
+		m.PutStr("k", "x")
+	case 2:
+		m.PutBool("k", true)
+	case 3:
+		m.PutInt("k", 0)
+	case 4:
+		m.PutEmptyBytes("k").FromRaw([]byte{1})
+	case 5:
+		m.PutDouble("k", 0)
+	case 6:
+		m.PutStr("k", "")
+	case 7:
+		m.PutInt("k", 1)
+	case 8:
+		m.PutEmptyBytes("k")
+	case 9:
+		m.PutDouble("k", 1.5)
+	case 10:
+		m.PutEmptyMap("k")
+	case 11:
+		m.PutEmptySlice("k").AppendEmpty().SetInt(1)
+	case 12:
+		m.PutEmptyMap("k").PutInt("x", 1)
+	case 13:
+		m.PutEmptySlice("k")
+	}
+}
+
 type Group struct {
 	R      int     `json:"r"`
 	Scopes []Scope `json:"scopes"`
@@ -60,6 +104,9 @@ func (l Letter) String() string {
 	}
 	if l.Big != nil {
 		return fmt.Sprintf("%s:big(%s,n=%d)", l.Sig, l.Big.Kind, l.Big.N)
+	}
+	if l.Mix != nil {
+		return fmt.Sprintf("%s:typemix(%s,rot=%d)", l.Sig, l.Mix.Level, l.Mix.Rot)
 	}
 	var parts []string
 	for _, g := range l.Groups {
@@ -397,6 +444,41 @@ func fillSpan(i int, sp ptrace.Span) {
 
 func (l Letter) BuildTraces() ptrace.Traces {
 	td := ptrace.NewTraces()
+	if l.Mix != nil {
+		rs := td.ResourceSpans().AppendEmpty()
+		ss := rs.ScopeSpans().AppendEmpty()
+		for i := 0; i < NumMixValues; i++ {
+			j := i + l.Mix.Rot
+			switch l.Mix.Level {
+			case "resource":
+				if i > 0 {
+					rs = td.ResourceSpans().AppendEmpty()
+					ss = rs.ScopeSpans().AppendEmpty()
+				}
+				putMixValue(rs.Resource().Attributes(), j)
+			case "scope":
+				if i > 0 {
+					ss = rs.ScopeSpans().AppendEmpty()
+				}
+				putMixValue(ss.Scope().Attributes(), j)
+			}
+			sp := ss.Spans().AppendEmpty()
+			sp.SetName(fmt.Sprintf("s%d", i))
+			sp.SetSpanID(sid(byte(1 + i)))
+			switch l.Mix.Level {
+			case "item":
+				putMixValue(sp.Attributes(), j)
+			case "sub":
+				e := sp.Events().AppendEmpty()
+				e.SetName("e")
+				putMixValue(e.Attributes(), j)
+				lk := sp.Links().AppendEmpty()
+				lk.SetTraceID(tid(2))
+				putMixValue(lk.Attributes(), j+3)
+			}
+		}
+		return td
+	}
 	if l.Ramp != nil {
 		rampTraces(td, l.Ramp)
 		return td
@@ -590,6 +672,33 @@ func fillLog(i int, lr plog.LogRecord) {
 
 func (l Letter) BuildLogs() plog.Logs {
 	ld := plog.NewLogs()
+	if l.Mix != nil {
+		rl := ld.ResourceLogs().AppendEmpty()
+		sl := rl.ScopeLogs().AppendEmpty()
+		for i := 0; i < NumMixValues; i++ {
+			j := i + l.Mix.Rot
+			switch l.Mix.Level {
+			case "resource":
+				if i > 0 {
+					rl = ld.ResourceLogs().AppendEmpty()
+					sl = rl.ScopeLogs().AppendEmpty()
+				}
+				putMixValue(rl.Resource().Attributes(), j)
+			case "scope":
+				if i > 0 {
+					sl = rl.ScopeLogs().AppendEmpty()
+				}
+				putMixValue(sl.Scope().Attributes(), j)
+			}
+			lr := sl.LogRecords().AppendEmpty()
+			lr.SetTimestamp(pcommon.Timestamp(100 + i))
+			lr.Body().SetStr(fmt.Sprintf("b%d", i))
+			if l.Mix.Level == "item" || l.Mix.Level == "sub" {
+				putMixValue(lr.Attributes(), j)
+			}
+		}
+		return ld
+	}
 	if l.Big != nil {
 		switch l.Big.Kind {
 		case "items":
@@ -994,6 +1103,40 @@ func fillMetric(i int, m pmetric.Metric) {
 
 func (l Letter) BuildMetrics() pmetric.Metrics {
 	md := pmetric.NewMetrics()
+	if l.Mix != nil {
+		rm := md.ResourceMetrics().AppendEmpty()
+		sm := rm.ScopeMetrics().AppendEmpty()
+		for i := 0; i < NumMixValues; i++ {
+			j := i + l.Mix.Rot
+			switch l.Mix.Level {
+			case "resource":
+				if i > 0 {
+					rm = md.ResourceMetrics().AppendEmpty()
+					sm = rm.ScopeMetrics().AppendEmpty()
+				}
+				putMixValue(rm.Resource().Attributes(), j)
+			case "scope":
+				if i > 0 {
+					sm = rm.ScopeMetrics().AppendEmpty()
+				}
+				putMixValue(sm.Scope().Attributes(), j)
+			}
+			m := sm.Metrics().AppendEmpty()
+			m.SetName(fmt.Sprintf("m%d", i))
+			dp := m.SetEmptyGauge().DataPoints().AppendEmpty()
+			dp.SetIntValue(int64(i))
+			dp.SetTimestamp(pcommon.Timestamp(100 + i))
+			switch l.Mix.Level {
+			case "item":
+				putMixValue(dp.Attributes(), j)
+			case "sub":
+				e := dp.Exemplars().AppendEmpty()
+				e.SetIntValue(int64(i))
+				putMixValue(e.FilteredAttributes(), j)
+			}
+		}
+		return md
+	}
 	if l.Big != nil {
 		switch l.Big.Kind {
 		case "items": // N metrics with one attribute-bearing point each
